@@ -13,6 +13,12 @@ func VerifC05Fee() {
 	vAssume(alphaOn("netmap", "setConfig", []byte("id"), []byte("ContainerAliasFee"), alias))
 	vAssume(alphaOn("balance", "mint", owner, bal, []byte{}))
 
+	if vParam(2) == 2 { // the alias domain already exists (registered by the committee, no records yet)
+		vSign(vCommitteeAcct(), true)
+		okd, rd := vInvoke("nns", "register", "mycnr.container", vCommitteeAcct(), "ops@nspcc.ru", 1, 2, 100000, 3)
+		vAssume(okd && rd.(bool))
+		named = true
+	}
 	blob := cnrBlob("c1", verLen, owner)
 	id := vSha256(blob)
 	alpha := vBool("putSignedByAlphabet")
